@@ -58,6 +58,22 @@ SAMPLE = '(read.get_tag("SM") if read.has_tag("SM") else "bulk")'
 CFB_COUNTED = COUNTED.replace('ignore_mp', 'False')
 BIN_START = 'bin_size * fdiv(%s, bin_size)' % SITE
 
+def cfb_fetch_covers(eng, fr):
+    """obligation at the fetch call: the window handed to fetch overlaps every record of the contig whose site lies in this
+    job's [start, end) and whose alignment lies within max_fragment_size of its site (the documented limit) - such a record
+    is owned by this job and by no other, so it must be seen here (ghost record g)"""
+    a, k = eng.ghost['fetch_args']
+    f_lo, f_hi = zterm(k['start'], INT), zterm(k['stop'], INT)
+    env = fr.env
+    start, end, M, csize = (zterm(env[n], INT) for n in ('start', 'end', 'max_fragment_size', 'contig_size'))
+    gs = [fresh(INT, n) for n in ('g_site', 'g_reference_start', 'g_reference_end')]
+    eng.witness['ghost_record'] = tuple(gs)
+    g_site, g_rs, g_re = (g.z for g in gs)
+    near = z3.And(start <= g_site, g_site < end, 0 <= g_rs, g_rs < g_re, g_re <= csize, g_rs <= g_site + M, g_re > g_site - M)
+    eng.check('fetch_window_covers_every_record_whose_site_is_owned_by_this_job',
+              z3.Implies(near, z3.And(g_rs < f_hi, g_re > f_lo, eng.equals(k['contig'], env['args'][3]))), kind='post')
+
+
 count_fragments_binned = Contract(
     PROP, F + '::count_fragments_binned', name='count_fragments_binned',
     params={'args': ARGS},
@@ -66,7 +82,7 @@ count_fragments_binned = Contract(
     setup=cfb_setup,
     callees=['read_counts'],
     loops={0: LoopSpec(
-        inv={},
+        inv={}, head_hook=cfb_fetch_covers,
         types={'counts': ('symdict', [(STR, INT, INT), (STR,)], INT)},
         body_post={
             # one arbitrary fetched record: the matrix changes by exactly +1 in the cell (bin containing the site,
@@ -98,13 +114,20 @@ def cfb_replay(inputs, clause):
     from pyvc import bamreplay as B
     from pyvc.contract import import_real
     args = list(inputs['args'])
-    w = B.witness_read(inputs['witness']['fetch_elem'])
+    if clause.startswith('fetch_window'):
+        # the ghost record of the obligation: a countable read 1 with site g_site aligned at [g_rs, g_re)
+        g = inputs['witness']['ghost_record']
+        w = {'is_read1': True, 'is_read2': False, 'is_qcfail': False, 'is_duplicate': False, 'is_unmapped': False, 'is_paired': False,
+             'mapping_quality': 60, 'reference_start': int(g[1]), 'reference_end': int(g[2]), 'query_name': 'ghost',
+             'tags': {'DS': int(g[0]), 'SM': 'cell'}}
+    else:
+        w = B.witness_read(inputs['witness']['fetch_elem'])
     contig = B.safe_name(args[3], 'ctgA')
     csize = int(inputs['witness'].get('contig_size', 0) or 0)
     bin_size, maxfrag, start, end, min_mq, dedup = args[1], args[2], args[4], args[5], args[6], args[9]
     csize = max(csize, 1)
     f_start, f_end = max(0, start - maxfrag), min(end + maxfrag, csize)
-    if not (w['reference_start'] < f_end and w['reference_end'] > f_start):
+    if not clause.startswith('fetch_window') and not (w['reference_start'] < f_end and w['reference_end'] > f_start):
         return {'status': 'no-input', 'note': 'witness record lies outside the fetch window (excluded by assumption A4)'}
     d = B.scratch('c12_')
     try:
